@@ -332,3 +332,8 @@ mut("same-item-offset-tests-anchor", "C14", "yrs/src/sticky_index.rs", "        
 mut("scan-benign-undo-stack-find", "C12", UN, "        for item in self.0.iter() {\n            if item.deletions.contains(id) {\n                return true;\n            }\n        }\n        false",
     "        self.0.iter().find(|item| item.deletions.contains(id)).is_some()", "", kind="benign")
 mut("c06d-remove-client-from-store", "C06", BS, "    pub fn is_empty(&self) -> bool {\n        self.clients.is_empty()\n    }", "    pub fn is_empty(&self) -> bool {\n        self.clients.is_empty()\n    }\n\n    pub fn forget(&mut self, client: &ClientID) {\n        self.clients.remove(client);\n    }", "C06.d")
+AWF = "yrs/src/sync/awareness.rs"
+mut("c18g-removal-keeps-clock", "C18", AWF, "                state.data = None;\n                state.clock += 1;\n                true", "                state.data = None;\n                true", "C18.g")
+mut("c18g-update-skips-null-clock", "C18", AWF, "                let data = meta.data.clone().unwrap_or_else(|| NULL_STR.into());\n                (meta.clock, data)", "                let data = meta.data.clone().unwrap_or_else(|| NULL_STR.into());\n                (meta.clock.saturating_sub(1), data)", "C18.g")
+mut("c18g-update-includes-removed", "C18", AWF, "                if e.data.is_none() {\n                    None\n                } else {\n                    Some(*e.key())\n                }", "                Some(*e.key())", "C18.g")
+mut("c18g-benign-named-entry", "C18", AWF, "            res.insert(client_id, AwarenessUpdateEntry { clock, json });", "            let entry = AwarenessUpdateEntry { clock, json };\n            res.insert(client_id, entry);", "", kind="benign")
